@@ -298,10 +298,40 @@ def pred_wb(inp):
     return True, 'ok'
 
 
+def pred_wb_safe(inp):
+    """safe white-balance scaling with unit nominal gains leaves no colour plane above its saturation level,
+    and leaves the data untouched when nothing is above it"""
+    by = _impl()[1]
+    sat = inp['saturation']
+    if inp['kind'] == 'pre':
+        img = np.asarray(inp['img'], dtype=float)
+        out = img.copy()
+        by.wb_prescale(out, 1.0, 1.0, 1.0, 1.0, cfa=inp['cfa'], safe=True, saturation=sat)
+        sats = sat if hasattr(sat, '__iter__') else [sat] * 4
+        planes_in = by.decomposite_bayer(img, inp['cfa'])
+        planes = by.decomposite_bayer(out, inp['cfa'])
+        names = PL
+    else:
+        rgb = np.asarray(inp['rgb'], dtype=float)
+        out = rgb.copy()
+        by.wb_postscale(out, 1.0, 1.0, 1.0, safe=True, saturation=sat)
+        sats = sat if hasattr(sat, '__iter__') else [sat] * 3
+        planes_in = [rgb[..., k] for k in range(3)]
+        planes = [out[..., k] for k in range(3)]
+        names = ('red', 'green', 'blue')
+    over = any(p.max() > s_ for p, s_ in zip(planes_in, sats))
+    for nm, p, s_ in zip(names, planes, sats):
+        if p.max() > s_ * (1 + 1e-12):
+            return False, f'safe white balance with unit gains leaves the {nm} plane at {p.max()!r} > saturation {s_!r}'
+    if not over and not all(np.array_equal(a, b) for a, b in zip(planes, planes_in)):
+        return False, 'safe white balance with unit gains changed data that was below saturation'
+    return True, 'ok'
+
+
 PREDS = {'dn_range': pred_dn_range, 'dn_monotone': pred_dn_monotone, 'dn_formula': pred_dn_formula, 'dn_frames': pred_dn_frames,
          'bin': pred_bin, 'tile': pred_tile, 'bin_tile_adjoint': pred_adjoint, 'bayer_roundtrip': pred_bayer_roundtrip,
          'bayer_composite': pred_bayer_composite, 'malvar_native': pred_malvar_native, 'malvar_constant': pred_malvar_constant,
-         'wb_prescale': pred_wb}
+         'wb_prescale': pred_wb, 'wb_safe': pred_wb_safe}
 
 
 def _run_pred(name, inp):
@@ -381,7 +411,7 @@ def correspondence(ctx):
 
     # ---------------- exposure
     shapes = [(3, 4), (1, 5), (4, 1), (2, 6)]
-    reps = ctx.scale(1, 6)
+    reps = ctx.scale(2, 10)
     for bits in range(1, 33):
         for kind in ['unit', 'scaled', 'maps', 'maps-flat'][:ctx.scale(4, 4)]:
             for rep in range(reps):
@@ -430,7 +460,13 @@ def correspondence(ctx):
                    True, f'bits{bits}/ramp')
 
     # ---------------- binning / tiling
-    for (shape, f) in BIN_SHAPES:
+    bin_shapes = list(BIN_SHAPES)
+    for _ in range(ctx.scale(6, 60)):      # random N-D shapes: 1..4 axes, factors 1..4, output lengths 1..4
+        d = int(rng.integers(1, 5))
+        f = [int(x) for x in rng.integers(1, 5, size=d)]
+        o = [int(x) for x in rng.integers(1, 5 if d < 4 else 4, size=d)]
+        bin_shapes.append((tuple(a * b for a, b in zip(o, f)), tuple(f)))
+    for (shape, f) in bin_shapes:
         fl = [f] * len(shape) if isinstance(f, int) else list(f)
         oshape = tuple(s // k for s, k in zip(shape, fl))
         nt = int(np.prod(shape)) > 1 and any(k > 1 for k in fl)
@@ -470,7 +506,7 @@ def correspondence(ctx):
     # ---------------- Bayer
     for (m, n) in BAYER_SHAPES:
         for cfa in ('rggb', 'bggr'):
-            for rep in range(ctx.scale(1, 3)):
+            for rep in range(ctx.scale(2, 6)):
                 img = rng.integers(0, 4096, size=(m, n)).astype(float)
                 desc = {'shape': [m, n], 'cfa': cfa, 'rep': rep}
                 tag = f'{cfa}'
@@ -527,6 +563,19 @@ def correspondence(ctx):
                 _check(ctx, 'wb_prescale', {'img': (img + 1).tolist(), 'cfa': cfa, 'gains': gains,
                                             'saturation': sat if rep % 2 == 0 else [sat, sat * 0.9, sat * 1.1, sat]},
                        dict(desc, gains=gains, saturation=sat), True, tag)
+            for hot in range(4):
+                base = rng.integers(0, 1000, size=(m, n)).astype(float)
+                r0, c0 = divmod(hot, 2)
+                base[r0::2, c0::2] *= 3.0          # one colour site well above the others
+                sat = float(rng.choice([900.0, 1500.0, 5000.0]))
+                _check(ctx, 'wb_safe', {'kind': 'pre', 'img': base.tolist(), 'cfa': cfa, 'saturation': sat},
+                       {'shape': [m, n], 'cfa': cfa, 'kind': 'pre', 'hot': hot, 'saturation': sat}, True, f'pre/hot{hot}')
+            for hot in range(3):
+                rgb = rng.integers(0, 1000, size=(m // 2, n // 2, 3)).astype(float)
+                rgb[..., hot] *= 3.0
+                sat = float(rng.choice([900.0, 1500.0, 5000.0]))
+                _check(ctx, 'wb_safe', {'kind': 'post', 'rgb': rgb.tolist(), 'saturation': sat if hot else [sat, sat, sat]},
+                       {'shape': [m // 2, n // 2, 3], 'kind': 'post', 'hot': hot, 'saturation': sat}, True, f'post/hot{hot}')
             _check(ctx, 'malvar_constant', {'shape': [m, n], 'cfa': cfa, 'level': 137.5}, {'shape': [m, n], 'cfa': cfa}, True, cfa)
 
     rows = C.lean_driver('C16', lines)
@@ -598,7 +647,11 @@ def search(ctx, hints):
                               ('bayer_composite', {'planes': [p.tolist() for p in full], 'cfa': cfa}),
                               ('malvar_native', {'img': img.tolist(), 'cfa': cfa}),
                               ('malvar_constant', {'shape': [m, n], 'cfa': cfa, 'level': 10.0}),
-                              ('wb_prescale', {'img': img.tolist(), 'cfa': cfa, 'gains': [2.0, 1.0, 1.25, 1.5], 'saturation': 150.0})):
+                              ('wb_prescale', {'img': img.tolist(), 'cfa': cfa, 'gains': [2.0, 1.0, 1.25, 1.5], 'saturation': 150.0}),
+                              ('wb_safe', {'kind': 'pre', 'img': img.tolist(), 'cfa': cfa, 'saturation': 50.0})) + tuple(
+                                  ('wb_safe', {'kind': 'post', 'saturation': 50.0, 'rgb': np.stack(
+                                      [np.where(k == hot, 3.0, 0.3) * full[k][:m // 2 + 1, :n // 2 + 1] for k in range(3)], axis=2).tolist()})
+                                  for hot in range(3)):
                 ok, detail = _run_pred(name, inp)
                 if not ok:
                     return found(name, inp, detail)
